@@ -242,9 +242,10 @@ fn sign_box(rng: &mut Rng, class: &str) -> Interval {
         "neg" => Interval::new(-b, -a),
         "pos" => Interval::new(a, b),
         "straddle" => Interval::new(-a, b),
-        "zero" => Interval::new(0.0, 0.0),
-        "touch-lo" => Interval::new(0.0, b),
-        "touch-hi" => Interval::new(-b, 0.0),
+        // a bound that is zero comes with either sign (atan2, division and recip tell them apart)
+        "zero" => match rng.below(3) { 0 => Interval::new(0.0, 0.0), 1 => Interval::new(-0.0, 0.0), _ => Interval::new(-0.0, -0.0) },
+        "touch-lo" => Interval::new(if rng.below(2) == 0 { 0.0 } else { -0.0 }, b),
+        "touch-hi" => Interval::new(-b, if rng.below(2) == 0 { 0.0 } else { -0.0 }),
         "huge" => {
             let h = *rng.pick(&[1.0e19f32, 1.0e30, 3.0e38, f32::MAX]);
             match rng.below(3) { 0 => Interval::new(-h, h), 1 => Interval::new(a, h), _ => Interval::new(-h, -a) }
@@ -341,7 +342,13 @@ fn class_cases(cx: &mut Cx, path: &str, rng: &mut Rng, per_class: usize) {
             };
             let mut pts = box_samples(rng, &bx, 12);
             pts.extend(crit);
-            let excluded = has_atan2(&p);
+            // the one excluded locus: a four-quadrant arctangent whose two arguments can both be zero
+            let excluded = has_atan2(&p) && (bx.len() < 2 || bx.iter().all(|b| b.lower() <= 0.0 && b.upper() >= 0.0))
+                && (bx.len() == 2 || {
+                    // reg-imm / imm-reg form: the immediate is the other argument
+                    let imm = p.ssa.iter().find(|g| g.name == "Atan").map(|g| vharness::keys::unbits(g.imm)).unwrap_or(0.0);
+                    imm == 0.0 && bx[0].lower() <= 0.0 && bx[0].upper() >= 0.0
+                });
             let vmf = vm_fn::<255>(&p).unwrap();
             let jf = jit_fn(&p).unwrap();
             let pf = |q: &[f32]| point_trace(&vmf, q).out;
